@@ -147,6 +147,22 @@ def rule_phase(ctx, tu, eff, R="C01.PHASE"):
             ok = cxa.canon(mul[0].rhs) == want
         ctx.check(ok, R, mul[0].node if mul else f.node, f.qual, text(mul[0].node)[:80] if mul else "?", "product over species of "
                   "amount ^ reactant coefficient of this reaction", "the mass-action product is not x[cell,s] ^ sub[s,reaction]")
+        # every species contributes its factor: the only condition a factor may be skipped under is that its own exponent is 0
+        if mul and len(loopv) == 1:
+            recs = []
+
+            def on_atom(node, facts, recs=recs):
+                for s_ in cxa.stores_of_node(node):
+                    if s_.op == "*=":
+                        recs.append(facts)
+            cxa.canon_facts(f.body, on_atom=on_atom)
+            own = "sub[%r]" % (S(loopv[0]) * S("n_reactions") + S(ps[1]))
+            extra = sorted(str(a) for fs in recs for a, pol in fs if isinstance(a, str) and not a.startswith(own) and
+                           not a.startswith(loopv[0] + " <") and not a.startswith("0 <= " + loopv[0]))
+            ctx.check(recs and not extra, R, mul[0].node, f.qual, "every species' factor is applied", "unconditional (or skipped "
+                      "only where the reactant coefficient itself is 0)", "a species' factor is skipped under `%s`: a reactant "
+                      "whose amount must enter the rate (for instance a catalyst with zero net change) is left out"
+                      % (extra[0] if extra else "?"))
     ctx.floor(R, 14)
 
 
